@@ -13,7 +13,9 @@ SYSTEMS = ["SI", "mks", "cgs", "imperial", "US"]
 class Check(Property):
     ID = "C13"
     PROPS_FILE = "PintModel/Props/C13.lean"
-    MODULE = "PintModel.Props.C13"
+    MODULE = "PintModel.Props.C13Policy"
+    EXTRA_PROPS_FILES = ["PintModel/Props/C13Policy.lean"]
+    EXTRA_LEAN_FILES = ["PintModel/Proofs/CachePolicyLemmas.lean", "PintModel/Model/CachePolicy.lean"]
     RULE = ("histories of 6-25 operations on one registry drawn from: conversions (incl. -1/-2 exponent twins), "
             "parse_units, get_root_units, get_base_units (default and explicit system), dimensionality, compatible "
             "units, formatting, defining a new unit (also under a spelling already parsed as prefix+unit), switching "
@@ -21,9 +23,11 @@ class Check(Property):
             "on a quantity whose dimensionality was read, and using a second registry; after the history every "
             "read-only probe is compared with the memo-free Lean model and with a fresh registry brought to the same "
             "declarative state; non-trivial = distinct histories containing a state change")
-    PARTIAL = ["the implementation's memo tables are not modelled one by one: the model functions are memo-free (the "
-               "specification), the memo discipline is proved generically (Props/C13) and the implementation is "
-               "compared with the specification after generated histories",
+    PARTIAL = ["the model functions are memo-free (the specification); the memo discipline is proved generically (Props/C13) "
+               "and for the memo architecture read from the source (Gen/CachePolicy: which tables a definition, a context "
+               "switch and a default-system change empty, which are kept per context stack; Props/C13Policy: that policy "
+               "covers every dependency, hence any history is answered like the specification); the tables' contents "
+               "are compared with the specification after generated histories, not modelled entry by entry",
                "compatible-unit listings after a later define() and define() inside an active context are recorded "
                "findings F8c / F8e"]
 
